@@ -143,6 +143,9 @@ func newWal(db string, forceSync bool) (*wal, error) {
 	if err != nil {
 		return nil, err
 	}
+	if err := verifOpenFault(path); err != nil {
+		return nil, err
+	}
 	file, err := os.OpenFile(path, os.O_CREATE|os.O_RDWR|os.O_APPEND, 0644)
 	if err != nil {
 		return nil, err
